@@ -5,6 +5,7 @@ CONSTANTS
   Conns = {1, 2, 3}
   Closers = {1, 2}
   MaxCloses = 2
+  MaxTotal = 3
   MaxErrs = 1
   Spurious = FALSE
 INVARIANTS TypeOK Limit OneSlotEach ClosedMeansError NoneBlockedAfterClose DrainedNeverReturned
